@@ -281,7 +281,17 @@ func (g *G) NewPath() string {
 
 // ---------------------------------------------------------------- contents
 
+// boundarySizes: lengths around internal buffer sizes of the compression, hashing and line-reading code
+var boundarySizes = []int{255, 256, 257, 4095, 4096, 4097, 8192, 32767, 32768, 32769, 65535, 65536, 65537, 131072}
+
 func (g *G) Content() []byte {
+	if g.Chance(5, "boundarySize") {
+		n := g.Pick2(boundarySizes, "size")
+		if g.Bool("compressible") {
+			return []byte(strings.Repeat("z", n))
+		}
+		return pseudoRandom(uint32(g.Int(1, 1<<30, "seed")), n)
+	}
 	switch g.Weighted([]int{40, 10, 10, 10, 6, 6, 3}, "contentClass") {
 	case 0:
 		return []byte(rapid.StringMatching(`[a-z ]{0,12}\n?`).Draw(g.T, "text"))
